@@ -131,6 +131,20 @@ def run_op(op, sc, pps, r, d):
         for pp in pps.planning_problem_dict.values():
             pp.goal.is_reached(pp.initial_state)
             pp.goal_reached(Trajectory(pp.initial_state.time_step, [pp.initial_state]))
+            # the states of the scenario's obstacles are checked as well (kinematic, point-mass, multi-body, custom)
+            for o in sc.dynamic_obstacles:
+                pred = o.prediction
+                states = [o.initial_state] + (list(pred.trajectory.state_list[:3]) if hasattr(pred, "trajectory") else [])
+                for s_ in states:
+                    try:
+                        pp.goal.is_reached(s_)
+                    except Exception:   # e.g. the documented ValueError for states lacking a constrained attribute
+                        pass
+                if hasattr(pred, "trajectory"):
+                    try:
+                        pp.goal_reached(pred.trajectory)
+                    except Exception:
+                        pass
     elif op == "eq":
         sc == sc
         pps == pps
